@@ -4,6 +4,10 @@ import Tmcg.Model.Rng
 import Tmcg.Model.Powm
 import Tmcg.Model.Vtmf
 import Tmcg.Model.Stack
+import Tmcg.Model.TmcgCard
+import Tmcg.Model.Sigma
+import Tmcg.Model.Codec
+import Tmcg.Model.StackEq
 /-
   Line-protocol driver (DESIGN.md §2.2): reads the implementation's trace on stdin,
   `<op> <inputs…> => <outputs…>`, recomputes the outputs with the model and prints
@@ -147,45 +151,15 @@ def hJacobi : Handler
 
 def showCard (c : Vtmf.Card) : String := s!"{c.c1} {c.c2}"
 
-/-- build the states of all players: secrets `xs`, everybody has processed everybody's key -/
-def vtmfPlayers (G : Vtmf.Group) (xs : List Int) : Except Err (List Vtmf.State) := do
-  let S0 ← Vtmf.mkState G
-  let sts ← xs.mapM (fun x => Vtmf.generateKey S0 x)
-  let his := sts.map (·.hi)
-  -- common key: own key times all others (order irrelevant for the value; C08 checks orders)
-  let h := his.foldl (fun acc hi => acc * hi % G.p) 1
-  sts.mapM (fun S => Vtmf.finalize { S with h := h })
-
-/-- vtmf.open p q g w T priv [xs] [ops r…] [taps…] [present…] opener
-      => h c1 c2 m type
-    the card of type T is created by player 0 (open, or private with exponent ops[0]),
-    then re-masked with the remaining exponents; `present` are the players whose
-    shares reach the opener (the opener's own share always counts). -/
+/-- vtmf.open p q g w T priv [xs] [rs] [taps] [present] opener => h c1 c2 m type -/
 def hVtmfOpen : Handler
   | [p, q, g, w, T, priv, xs, rs, taps, present, opener] => do
     let p ← pInt p; let q ← pInt q; let g ← pInt g; let w ← pNat w; let T ← pNat T
     let priv ← pNat priv; let xs ← pIntList xs; let rs ← pIntList rs; let taps ← pNatList taps
     let present ← pNatList present; let opener ← pNat opener
-    let r : Except Err String := do
-      let sts ← vtmfPlayers ⟨p, q, g⟩ xs
-      let S0 ← match sts[0]? with | some s => .ok s | none => .error .oob
-      let (c0, rs') ← if priv = 1 then
-          match rs with
-          | r0 :: rest => do let c ← Vtmf.createPrivateCard S0 T r0; pure (c, rest)
-          | [] => .error .oob
-        else do let c ← Vtmf.createOpenCard S0 T; pure (c, rs)
-      let taps' := if priv = 1 then taps.drop 1 else taps
-      let c ← (rs'.zip taps').foldlM (fun c (r, tap) => Vtmf.remask S0 c r (tap = 1)) c0
-      let So ← match sts[opener]? with | some s => .ok s | none => .error .oob
-      let So ← Vtmf.verifyInitialize So c.c1
-      let So ← present.foldlM (fun S j => do
-          let Sj ← match sts[j]? with | some s => .ok s | none => .error .oob
-          let dj ← Vtmf.decryptionShare Sj c.c1
-          pure (Vtmf.verifyUpdateAccept S dj)) So
-      let m ← Vtmf.verifyFinalize So c.c2
-      let t ← Vtmf.typeOfCard So w c.c2
-      pure s!"{So.h} {showCard c} {m} {t}"
-    some (match r with | .ok s => s | .error e => toString e)
+    some (match Vtmf.openRun ⟨p, q, g⟩ xs w T (priv = 1) rs (taps.map (· = 1)) present opener with
+      | .ok r => s!"{r.h} {showCard r.card} {r.m} {r.type}"
+      | .error e => toString e)
   | _ => none
 
 /-- vtmf.key p q g x0 [ops] => h nkeys [rets]
@@ -194,20 +168,16 @@ def hVtmfOpen : Handler
 def hVtmfKey : Handler
   | [p, q, g, x0, ops] => do
     let p ← pInt p; let q ← pInt q; let g ← pInt g; let x0 ← pInt x0; let ops ← pList ops
+    let ops ← ops.mapM fun op => match op.splitOn ":" with
+      | ["a", fp, key] => do let fp ← pInt fp; let key ← pInt key; some (Vtmf.KeyOp.accept fp key)
+      | ["x", _, _] => some Vtmf.KeyOp.refuse
+      | ["r", fp] => do let fp ← pInt fp; some (Vtmf.KeyOp.remove fp)
+      | _ => none
     let r : Except Err String := do
       let S0 ← Vtmf.mkState ⟨p, q, g⟩
       let S ← Vtmf.generateKey S0 x0
-      let (S, rets) ← ops.foldlM (fun (S, rets) op =>
-        match op.splitOn ":" with
-        | ["a", fp, key] => match pInt fp, pInt key with
-          | some fp, some key => pure (Vtmf.updateKeyAccept S fp key, rets ++ [1])
-          | _, _ => .error .oob
-        | ["x", _, _] => pure (S, rets ++ [0])
-        | ["r", fp] => match pInt fp with
-          | some fp => let (S', ok) := Vtmf.removeKey S fp; pure (S', rets ++ [if ok then 1 else 0])
-          | none => .error .oob
-        | _ => .error .oob) (S, ([] : List Nat))
-      pure s!"{S.h} {Vtmf.numberOfKeys S} {showList rets}"
+      let (S, rets) := Vtmf.runKeyOps S ops
+      pure s!"{S.h} {Vtmf.numberOfKeys S} {showList (rets.map fun b => if b then 1 else 0)}"
     some (match r with | .ok s => s | .error e => toString e)
   | _ => none
 
@@ -269,7 +239,303 @@ def hMixGlueEqual : Handler
   | [_] => some "1"
   | _ => none
 
+/-! #### quadratic-residuosity encoding (C01) -/
+
+def chunk (n : Nat) (l : List Int) : List (List Int) :=
+  if n = 0 then [] else
+  let rec go : Nat → List Int → List (List Int)
+    | 0, _ => []
+    | f+1, l => if l.isEmpty then [] else l.take n :: go f (l.drop n)
+  go (l.length + 1) l
+
+def pKeys (s : String) : Option (List TmcgCard.SecKey) := do
+  let l ← pList s
+  l.mapM fun e => match e.splitOn ":" with
+    | [m, y, p, q] => do
+      let m ← pInt m; let y ← pInt y; let p ← pInt p; let q ← pInt q
+      some ⟨⟨m, y⟩, p, q⟩
+    | _ => none
+
+/-- tmcg.open w T [keys m:y:p:q] [r flat] [b flat] => [z flat] type
+    the open card of type T is masked with each of the `len/(k*w)` secrets in turn, then opened -/
+def hTmcgOpen : Handler
+  | [w, T, keys, rs, bs] => do
+    let w ← pNat w; let T ← pNat T; let keys ← pKeys keys; let rs ← pIntList rs; let bs ← pIntList bs
+    let k := keys.length
+    let ring := keys.map (·.pub)
+    let secrets := (chunk (k * w) rs).zip (chunk (k * w) bs)
+    let r : Except Err String := do
+      let c ← secrets.foldlM (fun c (r, b) =>
+        TmcgCard.maskCard ring c ⟨chunk w r, chunk w b⟩) (TmcgCard.createOpenCard ring w T)
+      pure s!"{showList c.z.flatten} {TmcgCard.openCard c keys w}"
+    some (match r with | .ok s => s | .error e => toString e)
+  | _ => none
+
+/-- tmcg.secret k w index [b flat] => 1 iff every column of b XORs to zero (row `index` is the
+    XOR of the others), as `TMCG_CreateCardSecret` must produce -/
+def hTmcgSecret : Handler
+  | [_k, w, index, bs] => do
+    let w ← pNat w; let index ← pNat index; let bs ← pIntList bs
+    let b := chunk w bs
+    some (showBool (decide (TmcgCard.fixupB b index w = b)))
+  | _ => none
+
+/-! #### proofs of knowledge (C03/C04/C05) -/
+
+def hexOfString (s : String) : String :=
+  String.ofList (s.toUTF8.toList.flatMap fun b => [Sigma.hexDigit (b.toNat / 16), Sigma.hexDigit (b.toNat % 16)])
+
+/-- oracle log `[hexquery:answer,…]` -/
+def pOracle (s : String) : Option (List (String × Int)) := do
+  let l ← pList s
+  l.mapM fun e => match e.splitOn ":" with
+    | [q, a] => do let a ← pInt a; some (q, a)
+    | _ => none
+
+/-- the hash as replayed from the log; unknown queries get `dflt` -/
+def mkH (log : List (String × Int)) (dflt : Int) : Sigma.Hash :=
+  fun q => match log.lookup (hexOfString q) with
+    | some a => a
+    | none => dflt
+
+/-- run a model function with the replayed oracle; if the result depends on the default given to
+    unknown queries, the model asked something the implementation did not: `oracle-mismatch` -/
+def withOracle (log : List (String × Int)) (f : Sigma.Hash → String) : String :=
+  let a := f (mkH log (-1))
+  let b := f (mkH log (-2))
+  if a = b then a else "oracle-mismatch"
+
+def pKind (s : String) : Sigma.Kind := if s = "qr" then .qr else .schnorr
+
+/-- state with g- and h-tables for group (p,q,g), common key h, own secret x (h_i = g^x) -/
+def mkSigmaState (p q g h x : Int) : Except Err Vtmf.State := do
+  let S0 ← Vtmf.mkState ⟨p, q, g⟩
+  let S1 ← if x = 0 then pure S0 else Vtmf.generateKey S0 x
+  Vtmf.finalize { S1 with h := h }
+
+def showEB : Except Err Bool → String
+  | .ok b => showBool b
+  | .error e => toString e
+
+def showPair : Except Err (Int × Int) → String
+  | .ok (a, b) => s!"{a} {b}"
+  | .error e => toString e
+
+/-- zk.nizk.prove p q g x v [log] => c r -/
+def hNizkProve : Handler
+  | [p, q, g, x, v, log] => do
+    let p ← pInt p; let q ← pInt q; let g ← pInt g; let x ← pInt x; let v ← pInt v; let log ← pOracle log
+    some (withOracle log fun H => showPair (do
+      let S ← mkSigmaState p q g 1 x
+      Sigma.nizkProve H S v))
+  | _ => none
+
+/-- zk.nizk.verify kind p q g key c r [log] => 0/1 -/
+def hNizkVerify : Handler
+  | [kind, p, q, g, key, c, r, log] => do
+    let p ← pInt p; let q ← pInt q; let g ← pInt g; let key ← pInt key; let c ← pInt c; let r ← pInt r
+    let log ← pOracle log
+    some (withOracle log fun H => showEB (do
+      let S ← mkSigmaState p q g 1 0
+      Sigma.nizkVerify H (pKind kind) S key c r))
+  | _ => none
+
+/-- zk.cp.prove p q g h x y gg hh alpha omega tab [log] => c r -/
+def hCpProve : Handler
+  | [p, q, g, h, x, y, gg, hh, al, om, tab, log] => do
+    let p ← pInt p; let q ← pInt q; let g ← pInt g; let h ← pInt h; let x ← pInt x; let y ← pInt y
+    let gg ← pInt gg; let hh ← pInt hh; let al ← pInt al; let om ← pInt om; let tab ← pNat tab
+    let log ← pOracle log
+    some (withOracle log fun H => showPair (do
+      let S ← mkSigmaState p q g h 0
+      Sigma.cpProve H S x y gg hh al om (tab = 1)))
+  | _ => none
+
+/-- zk.cp.verify p q g h x y gg hh c r tab [log] => 0/1 -/
+def hCpVerify : Handler
+  | [p, q, g, h, x, y, gg, hh, c, r, tab, log] => do
+    let p ← pInt p; let q ← pInt q; let g ← pInt g; let h ← pInt h; let x ← pInt x; let y ← pInt y
+    let gg ← pInt gg; let hh ← pInt hh; let c ← pInt c; let r ← pInt r; let tab ← pNat tab
+    let log ← pOracle log
+    some (withOracle log fun H => showEB (do
+      let S ← mkSigmaState p q g h 0
+      Sigma.cpVerify H S x y gg hh c r (tab = 1)))
+  | _ => none
+
+/-- zk.mask.verify kind p q g h m c1 c2 pc pr [log] => 0/1 -/
+def hMaskVerify : Handler
+  | [kind, p, q, g, h, m, c1, c2, pc, pr, log] => do
+    let p ← pInt p; let q ← pInt q; let g ← pInt g; let h ← pInt h; let m ← pInt m
+    let c1 ← pInt c1; let c2 ← pInt c2; let pc ← pInt pc; let pr ← pInt pr; let log ← pOracle log
+    some (withOracle log fun H => showEB (do
+      let S ← mkSigmaState p q g h 0
+      Sigma.maskVerify H (pKind kind) S m ⟨c1, c2⟩ pc pr))
+  | _ => none
+
+/-- zk.mask.prove p q g h m c1 c2 r omega [log] => c r -/
+def hMaskProve : Handler
+  | [p, q, g, h, m, c1, c2, r, om, log] => do
+    let p ← pInt p; let q ← pInt q; let g ← pInt g; let h ← pInt h; let m ← pInt m
+    let c1 ← pInt c1; let c2 ← pInt c2; let r ← pInt r; let om ← pInt om; let log ← pOracle log
+    some (withOracle log fun H => showPair (do
+      let S ← mkSigmaState p q g h 0
+      Sigma.maskProve H S m ⟨c1, c2⟩ r om))
+  | _ => none
+
+/-- zk.remask.verify kind p q g h c1 c2 d1 d2 pc pr [log] => 0/1 -/
+def hRemaskVerify : Handler
+  | [kind, p, q, g, h, c1, c2, d1, d2, pc, pr, log] => do
+    let p ← pInt p; let q ← pInt q; let g ← pInt g; let h ← pInt h
+    let c1 ← pInt c1; let c2 ← pInt c2; let d1 ← pInt d1; let d2 ← pInt d2
+    let pc ← pInt pc; let pr ← pInt pr; let log ← pOracle log
+    some (withOracle log fun H => showEB (do
+      let S ← mkSigmaState p q g h 0
+      Sigma.remaskVerify H (pKind kind) S ⟨c1, c2⟩ ⟨d1, d2⟩ pc pr))
+  | _ => none
+
+/-- zk.remask.prove p q g h c1 c2 d1 d2 r omega [log] => c r -/
+def hRemaskProve : Handler
+  | [p, q, g, h, c1, c2, d1, d2, r, om, log] => do
+    let p ← pInt p; let q ← pInt q; let g ← pInt g; let h ← pInt h
+    let c1 ← pInt c1; let c2 ← pInt c2; let d1 ← pInt d1; let d2 ← pInt d2
+    let r ← pInt r; let om ← pInt om; let log ← pOracle log
+    some (withOracle log fun H => showPair (do
+      let S ← mkSigmaState p q g h 0
+      Sigma.remaskProve H S ⟨c1, c2⟩ ⟨d1, d2⟩ r om))
+  | _ => none
+
+/-- zk.dec.prove p q g h x c1 omega [log] => d c r -/
+def hDecProve : Handler
+  | [p, q, g, h, x, c1, om, log] => do
+    let p ← pInt p; let q ← pInt q; let g ← pInt g; let h ← pInt h; let x ← pInt x
+    let c1 ← pInt c1; let om ← pInt om; let log ← pOracle log
+    some (withOracle log fun H =>
+      match (do let S ← mkSigmaState p q g h x; Sigma.decryptProve H S c1 om) with
+      | .ok (d, c, r) => s!"{d} {c} {r}"
+      | .error e => toString e)
+  | _ => none
+
+/-- zk.dec.verify kind p q g h d0 [fp:key,…] c1 dj fp pc pr [log] => verdict d'
+    (`d0` the accumulator before, `d'` after) -/
+def hDecVerify : Handler
+  | [kind, p, q, g, h, d0, keys, c1, dj, fp, pc, pr, log] => do
+    let p ← pInt p; let q ← pInt q; let g ← pInt g; let h ← pInt h; let d0 ← pInt d0
+    let keys ← pList keys
+    let keys ← keys.mapM fun e => match e.splitOn ":" with
+      | [a, b] => do let a ← pInt a; let b ← pInt b; some (a, b)
+      | _ => none
+    let c1 ← pInt c1; let dj ← pInt dj; let fp ← pInt fp; let pc ← pInt pc; let pr ← pInt pr
+    let log ← pOracle log
+    some (withOracle log fun H =>
+      match (do
+        let S ← mkSigmaState p q g h 0
+        Sigma.decryptVerifyUpdate H (pKind kind) { S with d := d0, keys := keys } c1 dj fp pc pr) with
+      | .ok (S', ok) => s!"{showBool ok} {S'.d}"
+      | .error e => toString e)
+  | _ => none
+
+/-- zk.or.prove which p q g h y1 y2 g1 g2 alpha v1 v2 w [log] => [c1,c2,r1,r2] -/
+def hOrProve : Handler
+  | [which, p, q, g, h, y1, y2, g1, g2, al, v1, v2, w, log] => do
+    let p ← pInt p; let q ← pInt q; let g ← pInt g; let h ← pInt h
+    let y1 ← pInt y1; let y2 ← pInt y2; let g1 ← pInt g1; let g2 ← pInt g2
+    let al ← pInt al; let v1 ← pInt v1; let v2 ← pInt v2; let w ← pInt w; let log ← pOracle log
+    some (withOracle log fun H =>
+      match (do
+        let S ← mkSigmaState p q g h 0
+        if which = "1" then Sigma.orProveFirst H S y1 y2 g1 g2 al v1 v2 w
+        else Sigma.orProveSecond H S y1 y2 g1 g2 al v1 v2 w) with
+      | .ok l => showList l
+      | .error e => toString e)
+  | _ => none
+
+/-- zk.or.verify p q g h y1 y2 g1 g2 c1 c2 r1 r2 [log] => 0/1 -/
+def hOrVerify : Handler
+  | [p, q, g, h, y1, y2, g1, g2, c1, c2, r1, r2, log] => do
+    let p ← pInt p; let q ← pInt q; let g ← pInt g; let h ← pInt h
+    let y1 ← pInt y1; let y2 ← pInt y2; let g1 ← pInt g1; let g2 ← pInt g2
+    let c1 ← pInt c1; let c2 ← pInt c2; let r1 ← pInt r1; let r2 ← pInt r2; let log ← pOracle log
+    some (withOracle log fun H => showEB (do
+      let S ← mkSigmaState p q g h 0
+      Sigma.orVerify H S y1 y2 g1 g2 c1 c2 r1 r2))
+  | _ => none
+
+/-- zk.key.respond p q g x r c => m2 | refuse -/
+def hKeyRespond : Handler
+  | [p, q, g, x, r, c] => do
+    let p ← pInt p; let q ← pInt q; let g ← pInt g; let x ← pInt x; let r ← pInt r; let c ← pInt c
+    some (match (do let S ← mkSigmaState p q g 1 x; pure (Sigma.keyProveRespond S r c)) with
+      | .ok (some m) => toString m
+      | .ok none => "refuse"
+      | .error e => toString e)
+  | _ => none
+
+/-- zk.key.final kind p q g key m1 c m2 => 0/1 -/
+def hKeyFinal : Handler
+  | [kind, p, q, g, key, m1, c, m2] => do
+    let p ← pInt p; let q ← pInt q; let g ← pInt g; let key ← pInt key
+    let m1 ← pInt m1; let c ← pInt c; let m2 ← pInt m2
+    some (showEB (do
+      let S ← mkSigmaState p q g 1 0
+      Sigma.keyVerifyFinal (pKind kind) S key m1 c m2))
+  | _ => none
+
+def unhexString (s : String) : Option String := do
+  let bs ← pHex s
+  some (String.ofList (bs.map Char.ofNat))
+
+/-- zk.se.verify kind p q g h cyclic [s] [s2] [commit:bit:hextext,…] [log] => 0/1 -/
+def hSeVerify : Handler
+  | [kind, p, q, g, h, cyc, s, s2, rounds, log] => do
+    let p ← pInt p; let q ← pInt q; let g ← pInt g; let h ← pInt h; let cyc ← pNat cyc
+    let s ← pCardList s; let s2 ← pCardList s2
+    let rounds ← pList rounds
+    let rounds ← rounds.mapM fun e => match e.splitOn ":" with
+      | [c, b, t] => do
+        let c ← pInt c; let b ← pNat b; let t ← unhexString t
+        some (c, b = 1, t)
+      | _ => none
+    let log ← pOracle log
+    some (withOracle log fun H => showEB (do
+      let S ← mkSigmaState p q g h 0
+      StackEq.verify H (pKind kind) S s s2 (cyc = 1) rounds))
+  | _ => none
+
+/-- zk.se.prove p q g h [s2] [ss] [ss2] bit [log] => commit hextext -/
+def hSeProve : Handler
+  | [p, q, g, h, s2, ss, ss2, bit, log] => do
+    let p ← pInt p; let q ← pInt q; let g ← pInt g; let h ← pInt h
+    let s2 ← pCardList s2; let ss ← pPairList ss; let ss2 ← pPairList ss2; let bit ← pNat bit
+    let log ← pOracle log
+    some (withOracle log fun H =>
+      match (do
+        let S ← mkSigmaState p q g h 0
+        StackEq.proveRound H S s2 ss ss2 (bit = 1)) with
+      | .ok (c, resp) => s!"{c} {hexOfString (Codec.stackSecretText resp)}"
+      | .error e => toString e)
+  | _ => none
+
+/-- codec.int62 hextext => value | none ; codec.str62 value => hextext -/
+def hParse62 : Handler
+  | [t] => do
+    let t ← unhexString t
+    some (match Codec.parse62 t with | some v => toString v | none => "none")
+  | _ => none
+def hStr62 : Handler
+  | [v] => do let v ← pInt v; some (hexOfString (Codec.str62 v))
+  | _ => none
+
 def handlers : List (String × Handler) := [
+  ("zk.nizk.prove", hNizkProve), ("zk.nizk.verify", hNizkVerify),
+  ("zk.cp.prove", hCpProve), ("zk.cp.verify", hCpVerify),
+  ("zk.mask.prove", hMaskProve), ("zk.mask.verify", hMaskVerify),
+  ("zk.remask.prove", hRemaskProve), ("zk.remask.verify", hRemaskVerify),
+  ("zk.dec.prove", hDecProve), ("zk.dec.verify", hDecVerify),
+  ("zk.or.prove", hOrProve), ("zk.or.verify", hOrVerify),
+  ("zk.key.respond", hKeyRespond), ("zk.key.final", hKeyFinal),
+  ("zk.se.verify", hSeVerify), ("zk.se.prove", hSeProve),
+  ("codec.parse62", hParse62), ("codec.str62", hStr62),
+  ("tmcg.open", hTmcgOpen), ("tmcg.secret", hTmcgSecret),
   ("stack.types", hStackTypes), ("stack.mixglue-equal", hMixGlueEqual),
   ("rng.mod", hRngMod), ("rng.fy", hRngFy), ("rng.rot", hRngRot),
   ("rng.randomm", hRngRandomm), ("rng.randomb", hRngRandomb),
